@@ -275,7 +275,9 @@ ADDED = {
     "C26": "Also an aggregate bloom stored and restored from its compressed form between merges.",
     "C27": "Also witnesses held across later WitnessFor calls and re-verified.",
     "C28": "Also headers handed out for a prefix held and re-read after the accumulator has grown.",
-    "C31": "Also reads into a window (len < cap) of a larger sentinel-filled buffer.",
+    "C22": "Also lists that hold the same transaction at several positions.",
+    "C31": "Also reads into a window (len < cap) of a larger sentinel-filled buffer, and a transport that hands out a write in segments.",
+    "C32": "Also sessions without a key-agreement parameter from the remote end, in which nobody may be authenticated.",
     "C36": "Also the JSON-RPC address gate (validator tags and jsonrpc.Address) on every candidate.",
 }
 
